@@ -35,8 +35,10 @@ def conv(name, args):
     return "S %d" % (args[0] if args else 0)
 
 
-def reset_line(mp, ip, sleeper=1):
-    return "Reset 2 2 %d %d %s %d %s" % (sleeper, len(MAIN[mp]), " ".join(map(str, MAIN[mp])), len(ISRS[ip]), " ".join("%d %d" % x for x in ISRS[ip]))
+def reset_line(mp, ip, sleeper=1, rolls=(0, 0)):
+    # rolls: messages that went through the event queue / the atomic run queue before the schedule starts (cursor positions)
+    return "Reset 2 2 %d %d %s %d %s %d %d" % (sleeper, len(MAIN[mp]), " ".join(map(str, MAIN[mp])), len(ISRS[ip]),
+                                                " ".join("%d %d" % x for x in ISRS[ip]), rolls[0], rolls[1])
 
 
 def build(run, flags=(), name="irq_drv"):
@@ -60,7 +62,8 @@ def run_irq(run, for_c03=False, exe=None, cfgs=None, nrandom=None, tagp="", vali
         os.unlink(dot)
         paths, total = edge_cover(inits, edges)
         run.extra.setdefault("graph_edges", {})[tagp + name] = total
-        script = labels_to_script(paths, reset_line=reset_line(mp, ip, 0 if name in NOSLEEPER else 1), conv=conv)
+        rolls = [(0, 0), (259, 517), (1, 7), (514, 263)][len(traces) % 4]
+        script = labels_to_script(paths, reset_line=reset_line(mp, ip, 0 if name in NOSLEEPER else 1, rolls), conv=conv)
         tr = run.path("%sfirq-cover-%s.ndjson" % (tagp, name))
         exec_script(run, exe, [], script, tr, "irq-edge-cover-" + name)
         traces.append(tr)
